@@ -221,8 +221,27 @@ func (e *Engine) loopHeader(fr *Frame, h *ssa.BasicBlock, st *State) *State {
 	}
 	sort.Strings(gnames)
 	gmod, gall := e.ghostsModifiedIn(body, map[*ssa.Function]bool{}, 0)
+	if gall {
+		// the scan gave up on some callee: lock operations written in the loop body itself still count
+		gmod = map[string]bool{}
+		for b := range body {
+			for _, in := range b.Instrs {
+				if ci, ok := in.(ssa.CallInstruction); ok {
+					if callee := ci.Common().StaticCallee(); callee != nil {
+						if key := funcKey(callee); strings.HasPrefix(key, "sync.Mutex.") || strings.HasPrefix(key, "sync.RWMutex.") {
+							for g := range e.ghostSorts {
+								if strings.HasPrefix(g, "held_") {
+									gmod[g] = true
+								}
+							}
+						}
+					}
+				}
+			}
+		}
+	}
 	if c := e.curContract; c != nil && fr.top {
-		for _, sa := range c.SiteAsserts {
+		for _, sa := range append(append([]*SiteAssert{}, c.SiteAsserts...), c.CallAssumes...) {
 			if !sa.Ghost {
 				continue
 			}
@@ -236,7 +255,7 @@ func (e *Engine) loopHeader(fr *Frame, h *ssa.BasicBlock, st *State) *State {
 		}
 	}
 	for _, name := range gnames {
-		if gall || gmod[name] {
+		if (gall && !strings.HasPrefix(name, "held_")) || gmod[name] {
 			ns.ghost[name] = e.vc.declare("GL_"+name, e.ghostSort(name))
 		}
 	}
@@ -493,6 +512,13 @@ func (e *Engine) ghostsModifiedIn(body map[*ssa.BasicBlock]bool, seen map[*ssa.F
 					continue
 				}
 				if _, ok := intrinsics[key]; ok {
+					if strings.HasPrefix(key, "sync.Mutex.") || strings.HasPrefix(key, "sync.RWMutex.") {
+						for g := range e.ghostSorts {
+							if strings.HasPrefix(g, "held_") {
+								out[g] = true
+							}
+						}
+					}
 					continue
 				}
 				skip := false
